@@ -257,11 +257,20 @@ def write_replay(prop, name, content):
     return p
 
 
+def evidence_dir():
+    evdir = os.path.join(VERIF, "evidence")
+    if REPO != "/repo":
+        # runs against another tree (seeded changes, scratch worktrees) never touch the committed evidence
+        evdir = os.path.join(WORK, "evidence-" + hashlib.md5(REPO.encode()).hexdigest()[:8])
+    os.makedirs(evdir, exist_ok=True)
+    return evdir
+
+
 def write_evidence(prop, tier, seed, level, coverage, assumptions, wall, violations):
-    os.makedirs(os.path.join(VERIF, "evidence"), exist_ok=True)
+    evdir = evidence_dir()
     ev = {"property_id": prop, "tier": tier, "seed": seed, "level": level, "coverage": coverage,
           "assumptions": assumptions, "wall_s": round(wall, 2), "violations": violations}
-    with open(os.path.join(VERIF, "evidence", prop + ".json"), "w") as fh:
+    with open(os.path.join(evdir, prop + ".json"), "w") as fh:
         json.dump(ev, fh, indent=1, sort_keys=True)
         fh.write("\n")
 
